@@ -68,6 +68,9 @@ class G:
         items = [self.value(depth - 1, tagged) for _ in range(n)]
         if tagged and self.tuples and r.random() < 0.15:
             return {"$tuple": items}
+        if tagged and self.tuples and r.random() < 0.04:
+            # bytes / bytearray are sequences of ints: stored as a list of ints
+            return {"$bytes": [r.choice([0, 97, 98, 255]) for _ in range(n)]}
         return items
 
     def container(self, kind, depth=2, tagged=True, n=None):
